@@ -156,6 +156,9 @@ def run_harness(scs, wd, name):
             f.write(json.dumps(s) + "\n")
     log_path = os.path.join(wd, name + ".log.ndjson")
     p = vlib.run_vh(["sm", sc_path, log_path], timeout=900)
+    if p.returncode < 0 or p.returncode in (134, 139):
+        # killed by a signal: an abort / stack overflow in the code under test does not unwind
+        raise vlib.HarnessTimeout("the harness process was killed by signal (rc=%d): %s" % (p.returncode, p.stderr[-300:]))
     if p.returncode != 0:
         raise vlib.ToolError("harness failed: " + p.stderr[-2000:])
     return log_path
@@ -339,7 +342,7 @@ FN_PROPS = {
 FN_PROPS["C19"] = {
     "title": "times survive persistence and compare consistently", "module": "TimeConv", "cmd": "time",
     "cfg": {"quick": ["timeconv.cfg"], "thorough": ["timeconv.cfg"]}, "prefixes": ["TV"],
-    "nontrivial": lambda v: True,
+    "nontrivial": lambda v: True, "tlaps": "TimeConvProof.tla",
     "rule": "every microsecond count <<anchor, offset>> with anchor in {i64::MIN, about -10^15, 0, about +1.7*10^15, i64::MAX} "
             "and offset in -3..3, every instant around them at sub-microsecond positions {0,1,500,999} ns, and every "
             "combination of wall-only / monotonic-only / complete times over a small grid with every small duration, "
@@ -464,6 +467,26 @@ def run_fn(pid, tier, seed, replay, t0, as_part_of=None):
             stats["runs"].append({"cfg": cfg, "states": st.get("states", 0), "vectors": len(vs), "wall_s": st.get("wall_s")})
         if spec.get("extra_vectors"):
             vecs.extend(globals()[spec["extra_vectors"]](random.Random(seed * 1000 + int(pid[1:])), tier))
+    proof = None
+    if spec.get("tlaps") and not replay:
+        # unbounded laws of the model, discharged by the TLA+ proof system
+        import shutil
+        import subprocess
+        pd = os.path.join(wd, "tlaps")
+        os.makedirs(pd, exist_ok=True)
+        shutil.copy(os.path.join(vlib.SPEC, spec["tlaps"]), pd)
+        pr = subprocess.run(["timeout", "600", "tlapm", "--threads", "8", spec["tlaps"]], cwd=pd, stdout=subprocess.PIPE,
+                            stderr=subprocess.STDOUT, text=True)
+        m = re.search(r"All (\d+) obligations? proved", pr.stdout)
+        f = re.search(r"(\d+)/(\d+) obligations? failed", pr.stdout)
+        if m:
+            proof = {"module": spec["tlaps"], "obligations": int(m.group(1)), "discharged": int(m.group(1)), "checker_cmd": "tlapm --threads 8 " + spec["tlaps"]}
+        elif f:
+            proof = {"module": spec["tlaps"], "obligations": int(f.group(2)), "discharged": int(f.group(2)) - int(f.group(1))}
+            rp = vlib.write_replay(pid, "tlaps.txt", pr.stdout[-20000:])
+            viols.append({"key": "%s:model-proof" % pid, "replay": rp, "what": "a proof obligation of %s failed" % spec["tlaps"]})
+        else:
+            raise vlib.ToolError("tlapm gave no verdict: " + pr.stdout[-1500:])
     vpath = os.path.join(wd, "vectors.ndjson")
     with open(vpath, "w") as f:
         for v in vecs:
@@ -490,6 +513,8 @@ def run_fn(pid, tier, seed, replay, t0, as_part_of=None):
            "traces_validated_against_impl": len(vecs), "evaluations": len(vecs), "distinct_nontrivial": len(nt),
            "rule": spec["rule"], "samples": vecs[:3] + vecs[len(vecs) // 2: len(vecs) // 2 + 2],
            "checker_cmd": "tlc %s.tla ; vh %s" % (spec["module"], spec["cmd"]), "exhaustive": True}
+    if proof:
+        cov["unbounded_model_laws_proved_by_tlaps"] = proof
     if as_part_of:
         return rc, cov, len(viols)
     vlib.write_evidence(pid, tier, seed, "model_checking", cov, ASSUME_FN, t0, len(viols))
